@@ -105,6 +105,8 @@ def execute(prop, profile: str, source: Source, *, keep_log: bool = False, known
             err = "; ".join(sim.harness_errors)[:3000]
         if err is None and sim.violation is None and sim.outcome in ("deadlock", "cap"):
             err = f"run ended with {sim.outcome} at boundary {sim.boundary} and no oracle claimed it"
+        if sim.program is not None:
+            sim._hash.update(repr(sim.program).encode())
         res = {
             "violation": sim.violation.as_dict() if sim.violation else None,
             "harness": err,
